@@ -229,6 +229,8 @@ func execHard(f []string) string {
 		return strings.Join(want, " ")
 	case "ctxparams":
 		return realCtxParams(i64(f[2]), i64(f[3]), i64(f[4]))
+	case "phdr":
+		return realProcessHeaders(parseParams(f[2:11]), f[12:])
 	}
 	return "bad-op"
 }
@@ -264,6 +266,74 @@ func realCtxParams(tts, ttpb, af int64) string {
 		return "err:next"
 	}
 	return fmt.Sprintf("%d %d %d %08x", chain.BlocksPerRetarget(), chain.MinRetargetTimespan(), chain.MaxRetargetTimespan(), bits)
+}
+
+// regtest with the retarget rules of q switched on
+func phdrParams(q *chaincfg.Params) *chaincfg.Params {
+	p := chaincfg.RegressionNetParams
+	p.Deployments = [chaincfg.DefinedDeployments]chaincfg.ConsensusDeployment{}
+	p.Checkpoints = nil
+	p.PoWNoRetargeting = q.PoWNoRetargeting
+	p.ReduceMinDifficulty = q.ReduceMinDifficulty
+	p.MinDiffReductionTime = q.MinDiffReductionTime
+	p.TargetTimespan = q.TargetTimespan
+	p.TargetTimePerBlock = q.TargetTimePerBlock
+	p.RetargetAdjustmentFactor = q.RetargetAdjustmentFactor
+	p.EnforceBIP94 = q.EnforceBIP94
+	return &p
+}
+
+// realProcessHeaders feeds headers (oldest first, "t:bits") to BlockChain.ProcessBlockHeader of a real
+// chain; each header is built on the current header tip and its nonce is ground so that the hash clause
+// holds whenever the target is in range. Answer: the verdict of every header.
+func realProcessHeaders(q *chaincfg.Params, hs []string) string {
+	p := phdrParams(q)
+	base := os.TempDir()
+	if st, err := os.Stat("/dev/shm"); err == nil && st.IsDir() {
+		base = "/dev/shm"
+	}
+	dir, err := os.MkdirTemp(base, "c09db")
+	if err != nil {
+		return "err:tmp"
+	}
+	defer os.RemoveAll(dir)
+	db, err := database.Create("ffldb", filepath.Join(dir, "db"), p.Net)
+	if err != nil {
+		return "err:db"
+	}
+	defer db.Close()
+	chain, err := blockchain.New(&blockchain.Config{DB: db, ChainParams: p, TimeSource: blockchain.NewMedianTime()})
+	if err != nil {
+		return "err:new"
+	}
+	tip := *p.GenesisHash
+	var out []string
+	for k, tok := range hs {
+		tb := strings.Split(tok, ":")
+		h := wire.BlockHeader{Version: 0x20000000, PrevBlock: tip, Bits: u32hex(tb[1]), Timestamp: time.Unix(i64(tb[0]), 0)}
+		h.MerkleRoot[0] = byte(k)
+		target := blockchain.CompactToBig(h.Bits)
+		if target.Sign() > 0 && target.Cmp(p.PowLimit) <= 0 {
+			for n := uint32(0); n < 1<<22; n++ {
+				h.Nonce = n
+				hash := h.BlockHash()
+				if blockchain.HashToBig(&hash).Cmp(target) <= 0 {
+					break
+				}
+			}
+		}
+		_, err := chain.ProcessBlockHeader(&h, blockchain.BFNone, k%2 == 0)
+		v := ruleClass(err)
+		if re, ok := err.(blockchain.RuleError); ok && re.ErrorCode == blockchain.ErrUnexpectedDifficulty &&
+			(target.Sign() <= 0 || target.Cmp(p.PowLimit) > 0) {
+			v = "badTarget"
+		}
+		if v == "ok" {
+			tip = h.BlockHash()
+		}
+		out = append(out, v)
+	}
+	return strings.Join(out, ",")
 }
 
 // ---------------------------------------------------------------- generation
@@ -314,13 +384,40 @@ func boundaryLen(r *core.Rand, bpr int) int {
 	return n
 }
 
+// emit records a case; with C09_DIST=1 it also tallies the real code's answers per class on stderr
+// (debugging aid to see that the verdict classes are all exercised).
+var dist = map[string]map[string]int{}
+
+func emit(g *core.Gen, class string, nontrivial bool, line string) {
+	g.Case(class, nontrivial, line)
+	if os.Getenv("C09_DIST") != "" {
+		out := P{}.Exec(line)
+		if len(out) > 14 && !strings.Contains(out, ",") {
+			out = "value"
+		}
+		for _, v := range strings.Split(out, ",") {
+			if dist[class] == nil {
+				dist[class] = map[string]int{}
+			}
+			dist[class][v]++
+		}
+	}
+}
+
 func generateHard(g *core.Gen) {
+	defer func() {
+		if os.Getenv("C09_DIST") != "" {
+			for c, m := range dist {
+				fmt.Fprintln(os.Stderr, "DIST", c, m)
+			}
+		}
+	}()
 	r := g.R
 	// HashToBig: byte order, leading zero bytes, every single-byte position
 	for i := 0; i < 32; i++ {
 		b := make([]byte, 32)
 		b[i] = byte(1 + r.Intn(255))
-		g.Case("h2b-unit", true, "C09 h2b "+hex.EncodeToString(b))
+		emit(g, "h2b-unit", true, "C09 h2b "+hex.EncodeToString(b))
 	}
 	for i := 0; i < g.N(300, 20000); i++ {
 		b := r.Bytes(32)
@@ -330,9 +427,9 @@ func generateHard(g *core.Gen) {
 		if r.Chance(1, 10) {
 			b = bytes.Repeat([]byte{0xff}, 32)
 		}
-		g.Case("h2b", true, "C09 h2b "+hex.EncodeToString(b))
+		emit(g, "h2b", true, "C09 h2b "+hex.EncodeToString(b))
 	}
-	g.Case("h2b", false, "C09 h2b "+strings.Repeat("00", 32))
+	emit(g, "h2b", false, "C09 h2b "+strings.Repeat("00", 32))
 
 	// CheckBlockHeaderContext through my HeaderCtx (h) and through real blockNodes + BlockChain (n):
 	// accept/reject must equal the model's required-bits / MTP / time-warp verdict.
@@ -377,7 +474,7 @@ func generateHard(g *core.Gen) {
 		if r.Bool() {
 			impl = "n"
 		}
-		g.Case("hctx-"+impl, n >= bpr, fmt.Sprintf("C09 hctx %s %s %s %s %x %d %s", paramsLine(p), fast, skipcp, impl,
+		emit(g, "hctx-"+impl, n >= bpr, fmt.Sprintf("C09 hctx %s %s %s %s %x %d %s", paramsLine(p), fast, skipcp, impl,
 			hb, newTime, strings.Join(hs, " ")))
 	}
 	// BIP94 on full-size testnet4 periods: first block of a period 600/601 s before its parent
@@ -403,7 +500,7 @@ func generateHard(g *core.Gen) {
 		newTime := times[n-1] + r.Pick(-601, -600, -599, 1, 1201)
 		want, _ := blockchain.VerifCalcNextRequiredDifficulty(hdrChain(times, bb), time.Unix(newTime, 0), cctx{p})
 		impl := []string{"h", "n"}[i%2]
-		g.Case("hctx-testnet4", true, fmt.Sprintf("C09 hctx %s 0 %d %s %x %d %s", paramsLine(p), i%2, impl, want, newTime,
+		emit(g, "hctx-testnet4", true, fmt.Sprintf("C09 hctx %s 0 %d %s %x %d %s", paramsLine(p), i%2, impl, want, newTime,
 			strings.Join(hs, " ")))
 	}
 
@@ -416,11 +513,13 @@ func generateHard(g *core.Gen) {
 		copy(h.PrevBlock[:], r.Bytes(32))
 		copy(h.MerkleRoot[:], r.Bytes(32))
 		lim := []*big.Int{chaincfg.MainNetParams.PowLimit, chaincfg.RegressionNetParams.PowLimit, chaincfg.SigNetParams.PowLimit}[r.Intn(3)]
-		switch r.Intn(6) {
+		switch r.Intn(9) {
 		case 0:
 			h.Bits = r.U32()
 		case 1, 2:
 			h.Bits = 0x207fffff
+		case 6, 7, 8:
+			h.Bits = blockchain.BigToCompact(lim)
 		case 3:
 			h.Bits = 0x20000000 | r.U32()&0xffffff
 		case 4:
@@ -433,10 +532,10 @@ func generateHard(g *core.Gen) {
 			nsec = r.Pick(1, 999999999, 500000000, r.Range(1, 999999999))
 		}
 		nopow := "0"
-		if r.Chance(1, 3) {
+		if r.Chance(1, 2) {
 			nopow = "1"
 		}
-		g.Case("hsan", true, fmt.Sprintf("C09 hsan %s %s %s %d %d", headerHex(&h), lim.Text(16), nopow, nsec, adj))
+		emit(g, "hsan", true, fmt.Sprintf("C09 hsan %s %s %s %d %d", headerHex(&h), lim.Text(16), nopow, nsec, adj))
 	}
 
 	// BlockChain.CalcNextRequiredDifficulty on real blockNodes (skip-list ancestor lookup)
@@ -447,10 +546,10 @@ func generateHard(g *core.Gen) {
 		hs, lastTs := genHistory(r, p, n)
 		red := int64(p.MinDiffReductionTime / time.Second)
 		newTime := lastTs + r.Pick(red-1, red, red+1, 0, 1, -5)
-		g.Case("nextn", n >= bpr, fmt.Sprintf("C09 nextn %s %d %s", paramsLine(p), newTime, strings.Join(hs, " ")))
+		emit(g, "nextn", n >= bpr, fmt.Sprintf("C09 nextn %s %d %s", paramsLine(p), newTime, strings.Join(hs, " ")))
 	}
 	// (the empty chain is only reachable through a nil HeaderCtx: BlockChain.CalcNextRequiredDifficulty always has a tip)
-	g.Case("next", false, fmt.Sprintf("C09 next %s 5", paramsLine(&chaincfg.TestNet3Params)))
+	emit(g, "next", false, fmt.Sprintf("C09 next %s 5", paramsLine(&chaincfg.TestNet3Params)))
 	// shipped networks, clamp-edge spans, through the real BlockChain
 	nets := []*chaincfg.Params{&chaincfg.MainNetParams, &chaincfg.TestNet3Params, &chaincfg.TestNet4Params, &chaincfg.SigNetParams, &chaincfg.SimNetParams}
 	for i := 0; i < g.N(15, 300); i++ {
@@ -469,7 +568,7 @@ func generateHard(g *core.Gen) {
 			}
 			hs[n-1-j] = fmt.Sprintf("%d:%x", t, b)
 		}
-		g.Case("nextn-realnet", true, fmt.Sprintf("C09 nextn %s %d %s", paramsLine(p), t0+span+600, strings.Join(hs, " ")))
+		emit(g, "nextn-realnet", true, fmt.Sprintf("C09 nextn %s %d %s", paramsLine(p), t0+span+600, strings.Join(hs, " ")))
 	}
 
 	// CalcPastMedianTime on real blockNodes: 10/11/12 and every count 1..15
@@ -486,7 +585,7 @@ func generateHard(g *core.Gen) {
 		if r.Chance(1, 4) {
 			op = "mtp"
 		}
-		g.Case(op+"-edge", n > 1, "C09 "+op+" "+strings.Join(ts, " "))
+		emit(g, op+"-edge", n > 1, "C09 "+op+" "+strings.Join(ts, " "))
 	}
 
 	// cumulative work on real blockNodes
@@ -505,7 +604,7 @@ func generateHard(g *core.Gen) {
 			}
 			bs[j] = fmt.Sprintf("%x", c)
 		}
-		g.Case("worksum", true, "C09 worksum "+strings.Join(bs, " "))
+		emit(g, "worksum", true, "C09 worksum "+strings.Join(bs, " "))
 	}
 
 	// calcEasiestDifficulty
@@ -533,7 +632,7 @@ func generateHard(g *core.Gen) {
 		if r.Chance(1, 10) {
 			d = -r.Range(0, 100)
 		}
-		g.Case("easiest", d > 0, fmt.Sprintf("C09 easiest %s %x %d", paramsLine(p), bits, d))
+		emit(g, "easiest", d > 0, fmt.Sprintf("C09 easiest %s %x %d", paramsLine(p), bits, d))
 	}
 
 	// zero / negative / sub-byte targets through both PoW entry points
@@ -543,9 +642,9 @@ func generateHard(g *core.Gen) {
 			0x00123456, 0x01010000, 0x02000100, 0x03000001, 0x1d800000, 0x20800001}[i%14]
 		lim := chaincfg.RegressionNetParams.PowLimit
 		if i%3 == 0 {
-			g.Case("pow-zero-target", true, fmt.Sprintf("C09 pow %s %s", headerHex(&h), lim.Text(16)))
+			emit(g, "pow-zero-target", true, fmt.Sprintf("C09 pow %s %s", headerHex(&h), lim.Text(16)))
 		} else {
-			g.Case("hsan-zero-target", true, fmt.Sprintf("C09 hsan %s %s %d 0 1700000000", headerHex(&h), lim.Text(16), i%2))
+			emit(g, "hsan-zero-target", true, fmt.Sprintf("C09 hsan %s %s %d 0 1700000000", headerHex(&h), lim.Text(16), i%2))
 		}
 	}
 
@@ -601,7 +700,7 @@ func generateHard(g *core.Gen) {
 		if r.Bool() {
 			op = "nextn"
 		}
-		g.Case(class, true, fmt.Sprintf("C09 %s %s %d %s", op, paramsLine(p), times[n-1]+1, strings.Join(hs, " ")))
+		emit(g, class, true, fmt.Sprintf("C09 %s %s %d %s", op, paramsLine(p), times[n-1]+1, strings.Join(hs, " ")))
 	}
 
 	// shared-state run
@@ -615,16 +714,65 @@ func generateHard(g *core.Gen) {
 			}
 			cs[j] = fmt.Sprintf("%x", c)
 		}
-		g.Case("wpar", true, "C09 wpar "+strings.Join(cs, " "))
+		emit(g, "wpar", true, "C09 wpar "+strings.Join(cs, " "))
+	}
+
+	// end to end: header histories through BlockChain.ProcessBlockHeader of a real chain
+	for i := 0; i < g.N(30, 500); i++ {
+		q := synthParams(r)
+		q.PoWNoRetargeting = r.Chance(1, 10)
+		if r.Bool() {
+			q.EnforceBIP94 = true
+		}
+		p := phdrParams(q)
+		c := cctx{p}
+		bpr := int(c.BlocksPerRetarget())
+		per := int64(p.TargetTimePerBlock / time.Second)
+		red := int64(p.MinDiffReductionTime / time.Second)
+		gen := p.GenesisBlock.Header
+		times := []int64{gen.Timestamp.Unix()}
+		bits := []uint32{gen.Bits}
+		n := 3*bpr + 2
+		if n > 40 {
+			n = 40
+		}
+		var toks []string
+		for j := 0; j < n; j++ {
+			last := times[len(times)-1]
+			tip := hdrChain(times, bits)
+			mtp := blockchain.CalcPastMedianTime(tip).Unix()
+			t := last + r.Pick(per, per, per/2, 2*per, 1, 0, red+1, red, per/4, 4*per)
+			if p.EnforceBIP94 && (len(times)+1)%bpr == 0 && r.Bool() {
+				t = last + 1000 // lifts the next (first-of-period) block's window above the MTP
+			}
+			if p.EnforceBIP94 && (len(times))%bpr == 0 && r.Chance(2, 3) {
+				t = last + r.Pick(-599, -600, -601, -602)
+			}
+			if r.Chance(1, 12) {
+				t = mtp + r.Pick(-1, 0, 1)
+			}
+			want, err := blockchain.VerifCalcNextRequiredDifficulty(tip, time.Unix(t, 0), c)
+			b := want
+			if err != nil || r.Chance(1, 10) {
+				b = []uint32{want + 1, want - 1, p.PowLimitBits, bits[len(bits)-1], 0x207fffff + 1, 0, 0x20800001, 0x2100ffff}[r.Intn(8)]
+			}
+			toks = append(toks, fmt.Sprintf("%d:%x", t, b))
+			// the generator's guess of acceptance keeps the history mostly valid; the verdicts come from Exec / Lean
+			if b == want && t > mtp && !(p.EnforceBIP94 && len(times)%bpr == 0 && t < last-600) {
+				times = append(times, t)
+				bits = append(bits, b)
+			}
+		}
+		emit(g, "phdr", true, fmt.Sprintf("C09 phdr %s %d:%x %s", paramsLine(p), gen.Timestamp.Unix(), gen.Bits, strings.Join(toks, " ")))
 	}
 
 	// blockchain.New derives blocksPerRetarget / min / max timespan
 	for _, p := range []*chaincfg.Params{&chaincfg.MainNetParams, &chaincfg.TestNet4Params, &chaincfg.RegressionNetParams} {
-		g.Case("ctxparams", true, fmt.Sprintf("C09 ctxparams %d %d %d", int64(p.TargetTimespan/time.Second),
+		emit(g, "ctxparams", true, fmt.Sprintf("C09 ctxparams %d %d %d", int64(p.TargetTimespan/time.Second),
 			int64(p.TargetTimePerBlock/time.Second), p.RetargetAdjustmentFactor))
 	}
 	for i := 0; i < g.N(5, 40); i++ {
 		per := r.Pick(1, 2, 7, 60, 600)
-		g.Case("ctxparams", true, fmt.Sprintf("C09 ctxparams %d %d %d", per*r.Range(1, 30)+r.Range(0, per-1), per, r.Pick(1, 2, 3, 4, 7)))
+		emit(g, "ctxparams", true, fmt.Sprintf("C09 ctxparams %d %d %d", per*r.Range(1, 30)+r.Range(0, per-1), per, r.Pick(1, 2, 3, 4, 7)))
 	}
 }
